@@ -204,12 +204,14 @@ where R: Ring + Entry, for<'x> &'x R: RingOps<R> {
     let gens: Vec<Vec<KhGen>> = is.iter().map(|&i| c[i].raw_gens().iter().cloned().collect()).collect();
     let k = is.len();
     // --- the differential raises homological degree by one
-    let mut ok = c.d_deg() == 1;
+    let mut ok = c.d_deg() == 1;          // exactly the property: y in d(x) => h_deg(y) = h_deg(x) + 1
     let mut detail = String::new();
+    let mut ok2 = true;                   // bookkeeping consistency: C_i is spanned by generators of h_deg i, d(C_i) ⊂ C_{i+1}
+    let mut detail2 = String::new();
     for (p, &i) in is.iter().enumerate() {
-        if gens[p].len() != ranks[p] { ok = false; detail = format!("rank({})={} but {} generators", i, ranks[p], gens[p].len()); }
+        if gens[p].len() != ranks[p] { ok2 = false; detail2 = format!("rank({})={} but {} generators", i, ranks[p], gens[p].len()); }
         for x in &gens[p] {
-            if x.h_deg() != i { ok = false; detail = format!("generator {} listed in degree {} has h_deg {}", x, i, x.h_deg()); }
+            if x.h_deg() != i { ok2 = false; detail2 = format!("generator {} listed in degree {} has h_deg {}", x, i, x.h_deg()); }
         }
     }
     // d on generators
@@ -221,8 +223,11 @@ where R: Ring + Entry, for<'x> &'x R: RingOps<R> {
             let mut v: Vec<(KhGen, R)> = vec![];
             for (y, a) in dx.iter() {
                 if a.is_zero() { continue }
-                if y.h_deg() != i + 1 || !(p + 1 < k && gens[p + 1].contains(y)) {
-                    ok = false; detail = format!("d({}) in degree {} contains {} of h_deg {}", x, i, y, y.h_deg());
+                if y.h_deg() != x.h_deg() + 1 {
+                    ok = false; detail = format!("d({}) (h_deg {}) contains {} of h_deg {}", x, x.h_deg(), y, y.h_deg());
+                }
+                if !(p + 1 < k && gens[p + 1].contains(y)) {
+                    ok2 = false; detail2 = format!("d({}) in degree {} contains {} which is not a generator of degree {}", x, i, y, i + 1);
                 }
                 v.push((y.clone(), a.clone()));
             }
@@ -230,7 +235,9 @@ where R: Ring + Entry, for<'x> &'x R: RingOps<R> {
         }
         dgen.push(col);
     }
-    s.oracle(ok, "the differential raises homological degree by one (d_deg = 1, generators of C_i have h_deg i, d(x) is supported on generators of C_{i+1})", desc, &detail);
+    s.oracle(ok, "the differential raises homological degree by one (d_deg = 1 and every generator y occurring in d(x) has h_deg(y) = h_deg(x) + 1)", desc, &detail);
+    s.oracle(ok2, "the grading of the complex is the generators' homological degree (C_i is spanned by rank(i) generators of h_deg i and d(C_i) lies in the span of the generators of C_{i+1})", desc, &detail2);
+    if !ok2 { return None }
 
     // --- matrices
     let mut mats: Vec<Vec<(usize, usize, R)>> = vec![];
@@ -511,10 +518,10 @@ fn main() {
     let max_tbl = if thorough { 8 } else { 6 };
     let mut names = table_names(max_tbl);
     r.shuffle(&mut names);
-    names.truncate(if thorough { 40 } else { 7 });
+    names.truncate(if thorough { 90 } else { 7 });
     for n in names { if let Some(l) = load(&n) { cases.push(mk(&n, l)); } }
 
-    let n_braids = if thorough { 40 } else { 7 };
+    let n_braids = if thorough { 80 } else { 7 };
     for _ in 0..n_braids {
         let strands = 2 + r.below(if thorough { 4 } else { 3 }) as usize;
         let len = (strands - 1) + r.below(if thorough { 6 } else { 4 }) as usize;
@@ -523,7 +530,7 @@ fn main() {
     }
 
     let base: Vec<(String, Pd)> = cases.iter().filter(|c| is_plain_pd(&c.link) && !c.link.is_empty()).map(|c| (c.name.clone(), pd_of(&c.link))).collect();
-    let n_var = if thorough { 30 } else { 6 };
+    let n_var = if thorough { 60 } else { 6 };
     for _ in 0..n_var {
         let (name, pd) = r.pick(&base).clone();
         if pd.len() > (if thorough { 7 } else { 5 }) { continue }
